@@ -44,6 +44,9 @@ def invariance_case(case, ctx):
     if case.get("argvals") is not None:
         model = ArgNet(model, arch["T"], case["seed"])
         args = (torch.tensor(case["argvals"], dtype=torch.float64),)
+    if case.get("train_mode"):
+        model.train()          # handed over as constructed; the function must evaluate it in eval mode for every batch composition
+        ctx.label("handed_over_in_train_mode")
     mode = case["mode"]
     base = dict(target=case["target"], device="cpu", raw_outputs=(mode == "raw"), hypothetical=(mode == "hyp"), return_references=True)
     if case["refs"]["mode"] == "tensor":
@@ -137,7 +140,7 @@ def strategy(draw):
     subset = sorted(draw(st.sets(st.integers(0, n - 1), min_size=1, max_size=n)))
     case = {"arch": arch, "seed": draw(st.integers(0, 10 ** 6)), "X": X, "refs": refs, "target": draw(st.integers(0, arch["T"] - 1)),
             "mode": draw(st.sampled_from(["processed", "raw", "hyp"])), "batch_sizes": bs, "subset": subset,
-            "perm": list(draw(st.permutations(list(range(n))))), "override_between": draw(st.integers(0, 3)) == 0,
+            "perm": list(draw(st.permutations(list(range(n))))), "override_between": draw(st.integers(0, 3)) == 0, "train_mode": draw(st.booleans()),
             "seed_type": draw(st.sampled_from(["int", "int", "np_int64", "np_int32"])),
             "override_scale": draw(st.sampled_from([0.25, 0.5, 1.5, 2.0, 3.0, 5.0, 7.0]))}
     if draw(st.integers(0, 2)) == 0:
